@@ -368,6 +368,9 @@ void read_tag(int &c, std::string_view name, SOURCE read_char, MonotonicBuffer<c
     c = read_char();
 
     while (c != ']') {
+        if (c == EOF) {
+            throw std::invalid_argument("A tag wasn't closed with ']' before the end of the input.");
+        }
         if (c == '\r' || c == '\n') {
             std::stringstream ss;
             ss << "A tag wasn't closed with ']' before the end of the line.\n";
